@@ -45,10 +45,9 @@ theorem buildNew_eq (src : Source) (kept : List Child) (start stop : Int) (rp : 
   simp only [bind, Except.bind]
   rw [mapQ_eq (liftChild rp) (liftChildP rp) _
     (fun c hc => liftChild_eq rp c (hk c ((sortedKids_perm kept).mem_iff.mp hc)))]
+  -- the matcher's conditional equation for the catch-all branch is discharged with `hne`
   simp only []
-  split
-  · rename_i a b heq; exact absurd heq (hne a b)
-  · rfl
+  rfl
 
 /-! ### normal forms -/
 
